@@ -59,6 +59,12 @@ func tokens(src []byte, from int) ([]tok, error) {
 				lit = strconv.FormatInt(v, 10)
 			}
 		}
+		if t == token.FLOAT {
+			// gofmt canonicalises prefix and exponent letters (1E6 -> 1e6, 0X1P-2 -> 0x1p-2): compare by value
+			if v, err := strconv.ParseFloat(strings.ReplaceAll(lit, "_", ""), 64); err == nil {
+				lit = strconv.FormatFloat(v, 'g', -1, 64)
+			}
+		}
 		if !t.IsLiteral() && t != token.COMMENT {
 			lit = ""
 		}
